@@ -33,6 +33,8 @@ type solver struct {
 	tmo   int // per query timeout ms
 	dead  bool
 	nsent int
+	hist  []string // declarations, definitions and assertions of the current path (for .smt2 dumps)
+	keep  bool
 }
 
 func newSolver(bin []string, timeoutMs int) *solver {
@@ -59,6 +61,7 @@ func (s *solver) start() {
 }
 
 func (s *solver) preamble() {
+	s.hist = s.hist[:0]
 	s.pr = newPrinter(s.send)
 	if strings.Contains(s.bin[0], "z3") {
 		s.send(fmt.Sprintf("(set-option :timeout %d)", s.tmo))
@@ -66,6 +69,9 @@ func (s *solver) preamble() {
 }
 
 func (s *solver) send(line string) {
+	if s.keep && (strings.HasPrefix(line, "(declare") || strings.HasPrefix(line, "(define") || strings.HasPrefix(line, "(assert")) {
+		s.hist = append(s.hist, line)
+	}
 	if s.log != nil {
 		fmt.Fprintln(s.log, line)
 	}
